@@ -63,6 +63,16 @@ def direct_deps(task):
     return sorted(out, key=lambda d: d.tid)
 
 
+def direct_dep_instances(task):
+    """Every dependency *object* in the parameters (equal but distinct instances included), in task-id order."""
+    seen, out = set(), []
+    for d in walk_deps(task.a) + walk_deps(task.b):
+        if id(d) not in seen:
+            seen.add(id(d))
+            out.append(d)
+    return sorted(out, key=lambda d: d.tid)
+
+
 class RecCache(PickleCache):
     """PickleCache that reports loads and saves as trace events."""
 
@@ -150,15 +160,17 @@ def run_body(task):
         RIG.on_run_begin(task)
     try:
         _gate(task)
-        vals = []
-        for d in direct_deps(task):
+        vals, have = [], set()
+        for d in direct_dep_instances(task):      # the result is read through every instance found in the parameters
             try:
                 v = d.result
             except labtech.exceptions.TaskError:
                 _verif.emit('dread', t=task.tid, d=d.tid, ok=0, v=[])
                 raise
             _verif.emit('dread', t=task.tid, d=d.tid, ok=1, v=v)
-            vals.append(v)
+            if d.tid not in have:
+                have.add(d.tid)
+                vals.append(v)
         _emit_logs(task)
         if task.beh.split()[0] == 'raise' or task.tid in ((ctx or {}).get('failnow') or ()):
             raise RuntimeError(f'boom {task.tid}')
